@@ -79,7 +79,7 @@ func checkC16(p *Prog, r *Result, tier string) {
 				for _, in := range b.Instrs {
 					if call, ok := in.(*ssa.Call); ok {
 						g := call.Call.StaticCallee()
-						if g == srch {
+						if g == srch || forwardsToDispatcher(p, g, srch) >= 0 {
 							via = true
 						} else if g != nil && inSod(p, g) && hasSearchSig(g) && g != f {
 							direct = true
